@@ -59,6 +59,19 @@ def run_version(args):
             fails[k] = dict(ob=ob, sig=sig, detail=detail[:500], inp=text, version=version, count=0)
         fails[k]['count'] += 1
 
+    # every spelling used for the token classes is, on its own, exactly one token of its class: a sentence whose rendering the
+    # tokenizer does not reproduce is skipped below (layout reasons), so a mis-tokenized lexeme must not hide there
+    from parso.python.tokenize import tokenize as _tok
+    from parso.utils import parse_version_string as _pv
+    for cls in ('NAME', 'NUMBER', 'STRING'):
+        for sp in GO.SPELL[cls]:
+            try:
+                toks = [(t.type.name, t.string) for t in _tok(sp, version_info=_pv(version))]
+            except Exception as e:  # noqa
+                fail('bnd:C06.lexemes', cls + ':' + sp, repr(e), sp)
+                continue
+            if toks[:1] != [(cls, sp)] or [t[0] for t in toks[1:]] not in (['ENDMARKER'], ['NEWLINE', 'ENDMARKER']):
+                fail('bnd:C06.lexemes', cls + ':' + sp, 'the %s spelling %r is tokenized as %r' % (cls, sp, toks[:4]), sp)
     for start in ('file_input', 'eval_input'):
         if start not in g.nfa:
             continue
